@@ -46,13 +46,17 @@ def branchPat (i : Nat) (b : Branch) : PatV :=
   | some p => ⟨p.toks, .user p.ident⟩
   | none => ⟨[(Var.r i).tok], .r i⟩
 
+def Input.isMapOrAndThen (p : Input) : Bool :=
+  match p.handler with
+  | some (.map, _) => true | some (.andThen, _) => true | _ => false
+
+def Input.isThen (p : Input) : Bool :=
+  match p.handler with | some (.then_, _) => true | _ => false
+
 /-- `JoinOutput::new` (+ the futures path default of `generate_join`). -/
 def mkCtx (p : Input) (kind : Kind) : Except GenErr Ctx :=
-  let isMapOrAndThen := match p.handler with
-    | some (.map, _) => true | some (.andThen, _) => true | _ => false
-  let isThen := match p.handler with | some (.then_, _) => true | _ => false
-  if !kind.isTry && isMapOrAndThen then .error .handlerNotTry
-  else if kind.isTry && isThen then .error .thenInTry
+  if !kind.isTry && p.isMapOrAndThen then .error .handlerNotTry
+  else if kind.isTry && p.isThen then .error .thenInTry
   else if !kind.isAsync && p.fcp.isSome then .error .fcpNotAsync
   else if p.branches.isEmpty then .error .noBranch
   else
